@@ -27,6 +27,10 @@ pub struct Track {
     sessions: BTreeMap<u32, (u8, u32)>,
     pub violations: Vec<(String, String)>,
     pub steps: u64,
+    /// Live CASE sessions seen at the previous step: id -> (fabric index, epoch, local sid)
+    live_case: BTreeMap<u32, (u8, u32, u16)>,
+    /// Flag sessions of an untouched fabric that end (only meaningful without network faults)
+    pub watch_session_ends: bool,
 }
 
 impl Track {
@@ -37,6 +41,8 @@ impl Track {
             sessions: BTreeMap::new(),
             violations: Vec::new(),
             steps: 0,
+            live_case: BTreeMap::new(),
+            watch_session_ends: false,
         }
     }
 
@@ -91,6 +97,27 @@ impl Track {
                 ));
             }
         }
+        // A CASE session of a fabric which is still there, untouched, must not end because
+        // something happened to another fabric
+        let mut now_live: BTreeMap<u32, (u8, u32, u16)> = BTreeMap::new();
+        for s in &st.snap.sessions {
+            let f = s.mode.fab_idx();
+            if f != 0 && !s.reserved && !s.expired && matches!(s.mode, rs_matter::transport::session::SessionMode::Case { .. }) {
+                now_live.insert(s.id, (f, *self.epoch.entry(f).or_default(), s.local_sess_id));
+            }
+        }
+        if self.watch_session_ends {
+            for (id, (f, e, sid)) in &self.live_case {
+                let fabric_untouched = present.contains_key(f) && *self.epoch.entry(*f).or_default() == *e;
+                if fabric_untouched && !now_live.contains_key(id) {
+                    self.violations.push((
+                        "C07-session-of-untouched-fabric-ended".into(),
+                        format!("t={time}: CASE session {id} (local sid {sid}) of fabric index {f} ended although nothing happened to that fabric"),
+                    ));
+                }
+            }
+        }
+        self.live_case = now_live;
         // Resumption records
         for (f, peer) in &st.snap.resumption {
             if !present.contains_key(f) {
@@ -443,6 +470,139 @@ impl Scenario for RemoveFabric {
     }
 }
 
+
+/// A committed fabric (controller A, live CASE session, regular reads) next to a fabric staged by
+/// controller B under the fail-safe, which is then rolled back: by the timer while A's requests keep
+/// arriving around the expiry instant, or by A revoking the commissioning over its own session.
+pub struct RollbackNextToLiveFabric {
+    pub faults: bool,
+}
+
+impl Scenario for RollbackNextToLiveFabric {
+    fn property(&self) -> &'static str {
+        "C07"
+    }
+    fn name(&self) -> &'static str {
+        if self.faults {
+            "rollback-next-to-live-fabric"
+        } else {
+            "rollback-next-to-live-fabric-fault-free"
+        }
+    }
+
+    fn run(&self, seed: u64) -> Outcome {
+        let how = tape::choose(2); // 0 = timer, 1 = RevokeCommissioning by A
+        let b_start_ms = 5_000 + tape::choose(10) * 500;
+        let mut a_script = vec![CtlStep::Commission { dev: 0 }, CtlStep::OpenWindow { dev: 0, secs: 600 }];
+        // Reads all along: some land right around the expiry of B's fail-safe (60 s after it armed)
+        let gap = 150 + tape::choose(8) * 110;
+        let mut t = 0u32;
+        let revoke_at = b_start_ms + 4_000 + tape::choose(40) * 500;
+        let mut revoked = false;
+        while t < 90_000 {
+            a_script.push(CtlStep::ReadOnOff { dev: 0 });
+            a_script.push(CtlStep::Sleep { ms: gap });
+            t += gap + 10;
+            if how == 1 && !revoked && t >= revoke_at {
+                a_script.push(CtlStep::Revoke { dev: 0 });
+                revoked = true;
+            }
+        }
+        a_script.push(CtlStep::ReadOnOff { dev: 0 });
+        let b_script = vec![
+            CtlStep::Sleep { ms: b_start_ms },
+            CtlStep::CommissionPhase1 { dev: 0 },
+            CtlStep::ReadOnOff { dev: 0 },
+            CtlStep::Sleep { ms: 100_000 },
+            CtlStep::ReadOnOff { dev: 0 },
+        ];
+        let net = if self.faults && tape::chance(500) {
+            UniformNet {
+                latency_us: 500,
+                jitter_us: 3000,
+                drop_permille: [20, 80][tape::choose(2) as usize],
+                dup_permille: 40,
+                hold_permille: 40,
+                hold_max_ms: 400,
+                ..Default::default()
+            }
+        } else {
+            UniformNet {
+                latency_us: 1000,
+                ..Default::default()
+            }
+        };
+        let lossy = net.drop_permille > 0;
+        let cfg = FullCfg {
+            n_devices: 1,
+            controllers: vec![
+                CtlSpec { fabric_id: 1, node_id: CTL_NODE_ID, script: a_script, continue_on_error: true },
+                CtlSpec { fabric_id: 2, node_id: CTL_NODE_ID, script: b_script, continue_on_error: true },
+            ],
+            handlers: 4,
+            net,
+            sched: SchedCfg {
+                nonfifo_permille: if self.faults { [0, 100, 300][tape::choose(3) as usize] } else { 0 },
+                max_polls: 4_000_000,
+                max_time: 3_000 * SEC,
+                ..Default::default()
+            },
+            limit_us: 2_000 * SEC,
+            kv_faults: vec![],
+            crashes: vec![],
+            restart_after_us: 300 * MS,
+            cancels: vec![],
+            calm_at_us: None,
+        };
+        let mut track = Track::new();
+        // Without loss no session of the committed fabric has a reason to end
+        track.watch_session_ends = !lossy;
+        let run = drive_full_with(seed, cfg, &mut |t, states| {
+            if let Some(Some(st)) = states.first() {
+                track.step(t, st);
+            }
+        });
+        let mut out = Outcome::default();
+        common_counters(&run, &mut out);
+        for (o, d) in &track.violations {
+            out.violate(o, d.clone());
+        }
+        let a = results(&run, 1);
+        let b = results(&run, 2);
+        let describe = || {
+            format!(
+                "how={} A={:?} B={:?}",
+                if how == 0 { "timer" } else { "RevokeCommissioning" },
+                a.iter().filter(|(n, _, _)| *n != "sleep").map(|(n, r, t)| format!("{n}:{r:x}@{}", t / 1000)).collect::<Vec<_>>(),
+                b.iter().filter(|(n, _, _)| *n != "sleep").map(|(n, r, t)| format!("{n}:{r:x}@{}", t / 1000)).collect::<Vec<_>>()
+            )
+        };
+        let a_ok = a.iter().any(|(n, r, _)| *n == "commission" && *r == 0xffff);
+        let b_staged = b.iter().any(|(n, r, _)| *n == "commission_phase1" && *r == 0xffff);
+        if run.all_done && a_ok && b_staged {
+            out.count("c07_rollbacks_next_to_live_fabric", 1);
+            // B's credentials are gone after the rollback
+            if let Some((_, r, _)) = b.iter().filter(|(n, _, _)| *n == "read_onoff").last() {
+                if *r == 0xffff {
+                    out.violate("C07-old-credentials-still-work", describe());
+                }
+            }
+            // A keeps working throughout
+            if !lossy && a.iter().any(|(n, r, _)| *n == "read_onoff" && *r != 0xffff) {
+                out.violate("C07-unrelated-fabric-disturbed", describe());
+            }
+        } else {
+            out.count("runs_incomplete", 1);
+        }
+        out.count("invariant_steps", track.steps);
+        out.nontrivial = a_ok && b_staged;
+        out.state_sigs.push((how as u64) << 8 | gap as u64);
+        out.sample = Some(json!({"rollback": if how == 0 { "timer" } else { "RevokeCommissioning by the other fabric's administrator" }, "read_gap_ms": gap,
+            "B": b.iter().map(|(n, r, t)| format!("{n}:{r:x}@{}ms", t / 1000)).collect::<Vec<_>>()}));
+        out
+    }
+}
+
 pub fn defs() -> Vec<PropertyDef> {
     vec![PropertyDef {
         id: "C07",
@@ -466,6 +626,16 @@ pub fn defs() -> Vec<PropertyDef> {
             Family {
                 scenario: Box::new(RemoveFabric { faults: true }),
                 weight: 3,
+                fault_free: false,
+            },
+            Family {
+                scenario: Box::new(RollbackNextToLiveFabric { faults: false }),
+                weight: 2,
+                fault_free: true,
+            },
+            Family {
+                scenario: Box::new(RollbackNextToLiveFabric { faults: true }),
+                weight: 2,
                 fault_free: false,
             },
         ],
